@@ -468,4 +468,95 @@ ChainProg(n, fl) ==
         [i \in 1..n |-> Func(PN(i), IF i < n THEN <<TN(i + 1)>> ELSE <<>>, TN(i), FlCl(fl), FlEr(fl) /\ (i = 1 \/ i = n \/ i = n \div 2))], <<>>,
         <<Inj("Inject", <<>>, TN(1), TRUE, TRUE, [i \in 1..n |-> ItL(i)])>>) EXCEPT !.fam = "R"]
 FamilyChain(p, ns) == \E n \in ns : \E fl \in {"c", "b"} : p = ChainProg(n, fl)
+
+(* ======================================================================== *)
+(* Family G, split: the providers of a digraph are distributed over SetA    *)
+(* and SetB; SetAll = NewSet(SetA, SetB) has no provider of its own; the    *)
+(* injector uses SetAll.  (A cycle may exist only in the union.)            *)
+(* Lattices: d layers of two providers, each depending on both providers of *)
+(* the next layer (2^d paths), optionally closed by a back edge.            *)
+(* ======================================================================== *)
+GSplitProg(n, E, part) ==
+  LET succ(i) == SeqOfSet({j \in 1..n : <<i, j>> \in E})
+      leaves  == [i \in 1..n |-> Func(PN(i), [x \in DOMAIN succ(i) |-> TN(succ(i)[x])], TN(i), FALSE, FALSE)]
+      inA == SeqOfSet({i \in 1..n : part[i] = "A"})  inB == SeqOfSet({i \in 1..n : part[i] = "B"})
+      key == "G/split/n" \o ToString(n) \o "/e" \o ToString(EdgeCode(n, E)) \o "/" \o ConcatStr(part)
+  IN Prog(key, "G", [i \in 1..n |-> Tok(TN(i))], leaves,
+          <<SetD("SetA", "a", Items(inA)), SetD("SetB", "a", Items(inB)), SetD("SetAll", "a", <<ItS(1), ItS(2)>>)>>,
+          <<Inj("Inject", <<>>, TN(1), FALSE, FALSE, <<ItS(3)>>)>>)
+FamilyGSplit(p, n) ==
+  \E E \in SUBSET ((1..n) \X (1..n)) : \E part \in [1..n -> {"A", "B"}] :
+    /\ part[1] = "A" /\ \E i \in 1..n : part[i] = "B"
+    /\ p = GSplitProg(n, E, part)
+LatticeProg(d, back) ==
+  LET n == 2 * d
+      layer(k) == (k + 1) \div 2
+      ins(k) == IF layer(k) < d THEN <<TN(2 * layer(k) + 1), TN(2 * layer(k) + 2)>>
+                ELSE IF back /\ k = n THEN <<TN(1)>> ELSE <<>>
+      leaves == [k \in 1..n |-> Func(PN(k), ins(k), TN(k), FALSE, FALSE)]
+  IN Prog("G/lattice/d" \o ToString(d) \o (IF back THEN "/back" ELSE "/dag"), "G", [k \in 1..n |-> Tok(TN(k))], leaves,
+          <<SetD("SetA", "a", [k \in 1..n |-> ItL(k)])>>, <<Inj("Inject", <<>>, TN(1), FALSE, FALSE, <<ItS(1)>>)>>)
+FamilyLattice(p, ds) == \E d \in ds : \E back \in BOOLEAN : p = LatticeProg(d, back)
+
+(* ======================================================================== *)
+(* Family X: shapes that need several injectors, several injector files,    *)
+(* several sets sharing an import, multi-name var specs, or several         *)
+(* parameters - one program per named variant.                              *)
+(* ======================================================================== *)
+XAtoms == << Tok("T1"), Tok("T2"), Tok("T3"), Tok("T8"), Tok("T9"),
+             Iface("I1", "a", <<>>), Iface("I2", "a", <<"I1">>),
+             MkAtom("C", "tok", "a", <<>>, <<>>, <<Impl("I1", "pointer")>>, ""),
+             MkAtom("C1", "tok", "a", <<>>, <<>>, <<Impl("I1", "pointer")>>, ""),
+             StructT("S1", "a", <<Fld("A", "T1"), FldT("D", "T8", "foreign"), FldT("E", "T3", "other")>>) >>
+XF(name, ins, out) == Func(name, ins, out, FALSE, FALSE)
+XInj(name, params, out, items, file) == [Inj(name, params, out, FALSE, FALSE, items) EXCEPT !.file = file]
+XProg(v) ==
+  LET mk(leaves, sets, injs) == Prog("X/" \o v, "X", XAtoms, leaves, sets, injs) IN
+  CASE v = "star-foreign-tag-missing" ->    \* "*" must fill the field with the foreign tag: its type has no provider
+         mk(<<StructL("St", "S1", <<>>, TRUE), XF("P1", <<>>, "T1"), XF("P3", <<>>, "T3")>>, <<>>,
+            <<XInj("Inject", <<>>, "*S1", <<ItL(1), ItL(2), ItL(3)>>, 1)>>)
+    [] v = "star-foreign-tag-ok" ->
+         mk(<<StructL("St", "S1", <<>>, TRUE), XF("P1", <<>>, "T1"), XF("P3", <<>>, "T3"), XF("P8", <<>>, "T8")>>, <<>>,
+            <<XInj("Inject", <<>>, "*S1", <<ItL(1), ItL(2), ItL(3), ItL(4)>>, 1)>>)
+    [] v = "two-files-first-missing" ->
+         mk(<<XF("P1", <<"T2">>, "T1"), XF("P3", <<>>, "T3")>>, <<>>,
+            <<XInj("InjectA", <<>>, "T1", <<ItL(1)>>, 1), XInj("InjectB", <<>>, "T3", <<ItL(2)>>, 2)>>)
+    [] v = "two-files-second-missing" ->
+         mk(<<XF("P1", <<"T2">>, "T1"), XF("P3", <<>>, "T3")>>, <<>>,
+            <<XInj("InjectA", <<>>, "T3", <<ItL(2)>>, 1), XInj("InjectB", <<>>, "T1", <<ItL(1)>>, 2)>>)
+    [] v = "two-files-ok" ->
+         mk(<<XF("P1", <<"T3">>, "T1"), XF("P3", <<>>, "T3")>>, <<>>,
+            <<XInj("InjectA", <<>>, "T1", <<ItL(1), ItL(2)>>, 1), XInj("InjectB", <<>>, "T3", <<ItL(2)>>, 2), XInj("InjectC", <<>>, "T1", <<ItL(1), ItL(2)>>, 2)>>)
+    [] v = "missing-behind-bind" ->           \* the bound type has a provider, one of its inputs has none
+         mk(<<BindL("B", "I1", "*C"), XF("PC", <<"T8">>, "*C"), XF("Q", <<"I1">>, "T9")>>, <<>>,
+            <<XInj("Inject", <<>>, "T9", <<ItL(1), ItL(2), ItL(3)>>, 1)>>)
+    [] v = "missing-behind-bind-2" ->
+         mk(<<BindL("B", "I1", "*C"), XF("PC", <<"T2">>, "*C"), XF("P2", <<"T8">>, "T2"), XF("Q", <<"I1", "T3">>, "T9"), XF("P3", <<>>, "T3")>>, <<>>,
+            <<XInj("Inject", <<>>, "T9", <<ItL(1), ItL(2), ItL(3), ItL(4), ItL(5)>>, 1)>>)
+    [] v = "bind-iface-not-implementing" ->   \* I1 does not have I2's method
+         mk(<<BindL("B", "I2", "I1"), XF("PI", <<>>, "I1"), XF("Q", <<"I2">>, "T9")>>, <<>>,
+            <<XInj("Inject", <<>>, "T9", <<ItL(1), ItL(2), ItL(3)>>, 1)>>)
+    [] v = "arg-returned-through-bind" ->     \* no provider call at all; the bound argument is the second one
+         mk(<<BindL("B", "I1", "*C")>>, <<>>,
+            <<XInj("Inject", <<Par("p1", "*C1"), Par("p2", "*C")>>, "I1", <<ItL(1)>>, 1)>>)
+    [] v = "arg-returned-directly" ->
+         mk(<<>>, <<>>, <<XInj("Inject", <<Par("p1", "*C1"), Par("p2", "*C"), Par("p3", "T1")>>, "*C", <<>>, 1)>>)
+    [] v = "shared-import-bind-lacks-concrete" ->  \* Full and Broken share their first import; Broken binds a type only Full provides
+         mk(<<XF("P2", <<>>, "T2"), XF("PC", <<"T2">>, "*C"), BindL("B", "I1", "*C"), XF("Q", <<"I1">>, "T9"), XF("QC", <<"*C">>, "T1")>>,
+            <<SetD("Base", "a", <<ItL(1)>>), SetD("Full", "a", <<ItS(1), ItL(2)>>), SetD("Broken", "a", <<ItS(1), ItL(3)>>)>>,
+            <<XInj("InjectA", <<>>, "T1", <<ItS(2), ItL(5)>>, 1), XInj("InjectB", <<>>, "T9", <<ItS(3), ItL(4)>>, 1)>>)
+    [] v = "multi-name-var-sets" ->            \* var ProdSet, TestSet = NewSet(..), NewSet(..): each name its own initialiser
+         mk(<<XF("PProd", <<>>, "T2"), XF("PTest", <<>>, "T2"), XF("P1", <<"T2">>, "T1")>>,
+            <<[SetD("ProdSet", "a", <<ItL(1)>>) EXCEPT !.grp = "g"], [SetD("TestSet", "a", <<ItL(2)>>) EXCEPT !.grp = "g"]>>,
+            <<XInj("InjectProd", <<>>, "T1", <<ItS(1), ItL(3)>>, 1), XInj("InjectTest", <<>>, "T1", <<ItS(2), ItL(3)>>, 1)>>)
+    [] v = "same-set-twice-direct" ->          \* one set listed twice in the same call
+         mk(<<XF("P2", <<>>, "T2"), XF("P1", <<"T2">>, "T1")>>, <<SetD("SetA", "a", <<ItL(1)>>)>>,
+            <<XInj("Inject", <<>>, "T1", <<ItS(1), ItL(2), ItS(1)>>, 1)>>)
+    [] v = "same-set-twice-in-set" ->
+         mk(<<XF("P2", <<>>, "T2"), XF("P1", <<"T2">>, "T1")>>, <<SetD("SetA", "a", <<ItL(1)>>), SetD("SetB", "a", <<ItS(1), ItS(1)>>)>>,
+            <<XInj("Inject", <<>>, "T1", <<ItS(2), ItL(2)>>, 1)>>)
+XVariants == {"star-foreign-tag-missing", "star-foreign-tag-ok", "two-files-first-missing", "two-files-second-missing", "two-files-ok",
+              "missing-behind-bind", "missing-behind-bind-2", "bind-iface-not-implementing", "arg-returned-through-bind",
+              "arg-returned-directly", "shared-import-bind-lacks-concrete", "multi-name-var-sets", "same-set-twice-direct", "same-set-twice-in-set"}
+FamilyX(p, vs) == \E v \in vs : p = XProg(v)
 =============================================================================
